@@ -700,7 +700,14 @@ func (ex *Exec) callFunction(fn *ssa.Function, args []Value, bindings []Value) V
 			}
 		}
 	}
-	if m, ok := ex.eng.models[key]; ok {
+	if ms, ok := ex.eng.models[key]; ok {
+		// a model written in the package of the running harness takes precedence
+		m := ms[0]
+		for _, c := range ms {
+			if c.Pkg == ex.h.Fn.Pkg {
+				m = c
+			}
+		}
 		ex.noteStub("model:" + key)
 		ex.inModel++
 		defer func() { ex.inModel-- }()
